@@ -44,20 +44,29 @@ Proof.
   destruct Hin as (n & v & ch & Hr & E). rewrite recs_as_layer in Hr. rewrite N.lor_0_l in E. eauto.
 Qed.
 
-Definition sees_past (past : list (N * N)) (out : list obs) : Prop :=
-  forall o n id, In o out -> leaf_of o = Some n -> In id (mentions o) -> In (n, id) past.
-Lemma sees_past_own : forall past out, sees_past past out -> sees_only_own past out.
-Proof. intros past out H o n id Hin Hl Hm. apply in_or_app. left. eapply H; eauto. Qed.
-Lemma sees_past_app : forall past a b, sees_past past a -> sees_past past b -> sees_past past (a ++ b).
-Proof. intros past a b Ha Hb o n id Hin. apply in_app_or in Hin. destruct Hin; [eapply Ha | eapply Hb]; eauto. Qed.
-Lemma sees_past_quiet : forall past out, quiet out -> sees_past past out.
-Proof. intros past out Q o n id Hin Hl _. destruct o; try discriminate. exfalso. eapply Q; eauto. Qed.
+Definition sees_past := toldg.
+Lemma sees_past_own : forall c past st' out, news_of out = [] ->
+  sees_past c past (st_stack st') (st_spans st') out -> told c past st' out.
+Proof. intros c past st' out E H. unfold told. rewrite E, app_nil_r. exact H. Qed.
+Lemma sees_past_app : forall c past sk sp a b, sees_past c past sk sp a -> sees_past c past sk sp b -> sees_past c past sk sp (a ++ b).
+Proof. exact toldg_app. Qed.
+Lemma sees_past_quiet : forall c past sk sp out, quiet out -> sees_past c past sk sp out.
+Proof. exact toldg_quiet. Qed.
+(** [on_close] notifications are allowed any span pool *)
+Lemma sees_past_closes : forall c past sk sp sp' out,
+  (forall n w cur sc par nav, In (ODeliver n w cur sc par nav) out -> exists id, w = WClose id) ->
+  sees_past c past sk sp out -> sees_past c past sk sp' out.
+Proof.
+  intros c past sk sp sp' out Hc H o n Hin Hl. destruct (H o n Hin Hl) as (stc & v & ch & w & next & Hr & E & Hk & _ & Hok).
+  exists stc, v, ch, w, next. split; auto. split; auto. split; auto. split; auto. right.
+  subst o. unfold record in Hin. eapply Hc. exact Hin.
+Qed.
 
 Definition no_calls (out : list obs) : Prop := forall p, ~ In (OCall p) out.
 
 Lemma life_part : forall c st2 next past w id, WF c -> spans_ok c (st_spans st2) next past ->
   only w (c_life c w id st2) /\ follow_spec c past st2 w id (c_life c w id st2) /\
-  sees_past past (c_life c w id st2) /\ no_calls (c_life c w id st2).
+  sees_past c past (st_stack st2) (st_spans st2) (c_life c w id st2) /\ no_calls (c_life c w id st2).
 Proof.
   intros c st2 next past w id Hwf Hok. split; [|split; [|split]].
   - intros n w' cur sc par nav Hin. apply c_life_records in Hin; auto. destruct Hin as (n' & v & ch & _ & E).
@@ -65,8 +74,8 @@ Proof.
   - intros Ha r Hr.
     destruct (recs_deliver_char c (fun ch => visible st2 (mask_of ch) id = true) st2 w _ Hwf (c_life_spec c Hwf w id st2 Ha)) as [_ Hchar].
     rewrite (Hchar r Hr). destruct r as [[n v] ch]. simpl. eapply alive_visible_past; eauto.
-  - intros o n id0 Hin Hl Hm. apply c_life_records in Hin; auto. destruct Hin as (n' & v & ch & Hr & E). subst o.
-    simpl in Hl. inversion Hl; subst n'. eapply record_sees; eauto.
+  - intros o n Hin Hl. apply c_life_records in Hin; auto. destruct Hin as (n' & v & ch & Hr & E). subst o.
+    simpl in Hl. inversion Hl; subst n'. exists st2, v, ch, w, next. split; [exact Hr|]. split; [reflexivity|]. split; [reflexivity|]. split; [left; reflexivity | exact Hok].
   - intros p Hin. apply c_life_records in Hin; auto. destruct Hin as (n' & v & ch & _ & E). discriminate.
 Qed.
 
@@ -95,29 +104,31 @@ Definition all_closes (out : list obs) : Prop :=
 Definition same_rest (st st' : state) : Prop :=
   st_bits st' = st_bits st /\ st_pending st' = st_pending st /\ st_cache st' = st_cache st /\ st_next st' = st_next st.
 
-Lemma tc_nil : forall c past, all_closes [] /\ close_spec c past [] /\ sees_past past [].
+Lemma tc_nil : forall c past sk, all_closes [] /\ close_spec c past [] /\ forall sp, sees_past c past sk sp [].
 Proof.
-  intros. split; [intros n w cur sc par nav []|]. split; [|intros o n i []].
+  intros. split; [intros n w cur sc par nav []|]. split; [|intros sp o n []].
   intros id' r Hr. split. - intros D. exfalso. eapply delivered_nil; eauto. - intros [[] _].
 Qed.
 
 Lemma try_close_spec : forall c past next, WF c -> forall fuel st id st' out,
   spans_ok c (st_spans st) next past -> try_close fuel c st id = (st', out) ->
   same_rest st st' /\ sub_pool (st_spans st') (st_spans st) /\
-  all_closes out /\ close_spec c past out /\ sees_past past out.
+  all_closes out /\ close_spec c past out /\ (forall sp, sees_past c past (st_stack st) sp out) /\ st_stack st' = st_stack st.
 Proof.
   intros c past next Hwf. induction fuel as [|k IH]; intros st id st' out Hok H.
-  - simpl in H. inversion H; subst. split; [unfold same_rest; tauto|]. split; [apply sub_pool_refl | apply tc_nil].
+  - simpl in H. inversion H; subst. split; [unfold same_rest; tauto|]. split; [apply sub_pool_refl|]. destruct (tc_nil c past (st_stack st')) as (A & B & C). auto.
   - cbn [try_close] in H. destruct (sp_get st id) as [d|] eqn:Eg.
-    2:{ inversion H; subst. split; [unfold same_rest; tauto|]. split; [apply sub_pool_refl | apply tc_nil]. }
+    2:{ inversion H; subst. split; [unfold same_rest; tauto|]. split; [apply sub_pool_refl|]. destruct (tc_nil c past (st_stack st')) as (A & B & C). auto. }
     destruct (sd_refs d <=? 1).
-    2:{ inversion H; subst. split; [unfold same_rest; simpl; tauto|]. split; [apply set_refs_sub | apply tc_nil]. }
+    2:{ inversion H; subst. split; [unfold same_rest; simpl; tauto|]. split; [apply set_refs_sub|]. destruct (tc_nil c past (st_stack st)) as (A & B & C). auto. }
     set (st1 := set_refs st id 0) in *.
     assert (Hok1 : spans_ok c (st_spans st1) next past) by (eapply spans_ok_sub; [exact Hok | apply set_refs_sub]).
     assert (Ha1 : alive st1 id).
     { unfold alive, sp_get, st1, set_refs. simpl. unfold sp_get in Eg. rewrite (assoc_sp_update_same _ _ _ _ Eg). discriminate. }
     destruct (life_part c st1 next past (WClose id) id Hwf Hok1) as (Honly & Hfollow & Hsees & Hnc).
     set (out1 := c_life c (WClose id) id st1) in *.
+    assert (Hsees1 : forall sp, sees_past c past (st_stack st) sp out1).
+    { intros sp. eapply sees_past_closes; [|exact Hsees]. intros n w cur sc par nav Hin. apply Honly in Hin. eauto. }
     set (st2 := with_spans st1 (sp_remove id (st_spans st1))) in *.
     assert (Hsub2 : sub_pool (st_spans st2) (st_spans st)).
     { eapply sub_pool_trans; [apply sp_remove_sub | apply set_refs_sub]. }
@@ -131,8 +142,8 @@ Proof.
     destruct (sd_parent d) as [p|].
     + destruct (try_close k c st2 p) as [st3 out3] eqn:E3. injection H as E1' E2'; subst st' out.
       assert (Hok2 : spans_ok c (st_spans st2) next past) by (eapply spans_ok_sub; [exact Hok | exact Hsub2]).
-      destruct (IH st2 p st3 out3 Hok2 E3) as (Hr3 & Hs3 & Hac3 & Hcs3 & Hse3).
-      split; [|split; [|split; [|split]]].
+      destruct (IH st2 p st3 out3 Hok2 E3) as (Hr3 & Hs3 & Hac3 & Hcs3 & Hse3 & Hk3).
+      split; [|split; [|split; [|split; [|split]]]].
       * unfold same_rest in *. simpl in *. tauto.
       * eapply sub_pool_trans; eauto.
       * intros n w cur sc par nav Hin. apply in_app_or in Hin. destruct Hin as [Hin|Hin].
@@ -147,9 +158,10 @@ Proof.
            apply in_app_or in Hc. destruct Hc as [Hc|[Hc|[]]].
            ++ right. left. auto.
            ++ inversion Hc; subst. left. auto.
-      * apply sees_past_app; auto. apply sees_past_app; auto. apply sees_past_quiet. apply quiet_cons; auto using quiet_nil.
+      * intros sp. apply sees_past_app; auto. apply sees_past_app; [apply (Hse3 sp)|]. apply sees_past_quiet. apply quiet_cons; auto using quiet_nil.
+      * rewrite Hk3. reflexivity.
     + injection H as E1' E2'; subst st' out.
-      split; [|split; [|split; [|split]]].
+      split; [|split; [|split; [|split; [|split]]]].
       * unfold same_rest. simpl. tauto.
       * exact Hsub2.
       * intros n w cur sc par nav Hin. apply in_app_or in Hin. destruct Hin as [Hin|[Hin|[]]]; [|discriminate].
@@ -160,7 +172,8 @@ Proof.
            ++ exfalso. eapply delivered_call; eauto.
         -- intros [Hc Hp]. apply in_app_or in Hc. destruct Hc as [Hc|[Hc|[]]]; [exfalso; eapply Hnc; eauto|].
            inversion Hc; subst. left. auto.
-      * apply sees_past_app; auto. apply sees_past_quiet. apply quiet_cons; auto using quiet_nil.
+      * intros sp. apply sees_past_app; auto. apply sees_past_quiet. apply quiet_cons; auto using quiet_nil.
+      * reflexivity.
 Qed.
 
 Lemma all_closes_news : forall out, all_closes out -> news_of out = [].
@@ -196,7 +209,7 @@ Proof.
   assert (I2 : Inv c pool st2 past) by (eapply Inv_rest; eauto).
   destruct (life_part c st2 _ past (WEnter id) id Hwf (inv_spans _ _ _ _ I2)) as (Honly & Hfollow & Hsees & _).
   rewrite (news_of_only _ _ Honly) by discriminate. rewrite app_nil_r.
-  split; auto. split; auto. apply sees_past_own. auto.
+  split; auto. split; auto. apply sees_past_own; [eapply news_of_only; [exact Honly | discriminate] | exact Hsees].
 Qed.
 
 Lemma step_record : forall c mx pool h, step_ok c mx pool (ORecord h).
@@ -207,7 +220,7 @@ Proof.
   injection H as E1' E2'; subst st' out.
   destruct (life_part c st _ past (WRecord id) id Hwf (inv_spans _ _ _ _ HI)) as (Honly & Hfollow & Hsees & _).
   rewrite (news_of_only _ _ Honly) by discriminate. rewrite app_nil_r.
-  split; auto. split; auto. apply sees_past_own. auto.
+  split; auto. split; auto. apply sees_past_own; [eapply news_of_only; [exact Honly | discriminate] | exact Hsees].
 Qed.
 
 (** * exit / drop *)
@@ -216,12 +229,12 @@ Proof.
   intros c mx pool h st past st' out Hwf Hh HI H. unfold step in H. simpl.
   destruct (handle st h) as [id|] eqn:Eh.
   2:{ inversion H; subst. rewrite app_nil_r. split; auto. split; auto. apply sees_quiet, quiet_nil. }
-  assert (Tail : forall st2 o2, Inv c pool st2 past -> all_closes o2 -> close_spec c past o2 -> sees_past past o2 ->
+  assert (Tail : forall st2 o2, Inv c pool st2 past -> all_closes o2 -> close_spec c past o2 -> (forall sp, sees_past c past (st_stack st2) sp o2) ->
             (closes_or (WExit id) (o2 ++ c_life c (WExit id) id st2) /\
              follow_spec c past st2 (WExit id) id (o2 ++ c_life c (WExit id) id st2) /\
              close_spec c past (o2 ++ c_life c (WExit id) id st2)) /\
             Inv c pool st2 (past ++ news_of (o2 ++ c_life c (WExit id) id st2)) /\
-            sees_only_own past (o2 ++ c_life c (WExit id) id st2)).
+            told c past st2 (o2 ++ c_life c (WExit id) id st2)).
   { intros st2 o2 I2 Hac Hcs Hse.
     destruct (life_part c st2 _ past (WExit id) id Hwf (inv_spans _ _ _ _ I2)) as (Honly & Hfollow & Hsees & Hnc).
     set (ol := c_life c (WExit id) id st2) in *.
@@ -229,7 +242,7 @@ Proof.
     { apply news_of_none. intros n i D. apply delivered_app in D. destruct D as [D|D].
       - destruct D as (cur & sc & par & nav & D). apply Hac in D. destruct D as [x E]. discriminate.
       - destruct D as (cur & sc & par & nav & D). apply Honly in D. discriminate. }
-    rewrite Hnews, app_nil_r. split; [split; [|split]|split]; auto.
+    split; [split; [|split]|split]; [| | |rewrite Hnews, app_nil_r; auto|].
     - intros n w cur sc par nav Hin. apply in_app_or in Hin. destruct Hin as [Hin|Hin].
       + right. eapply Hac; eauto. + left. eapply Honly; eauto.
     - intros Ha r Hr. rewrite delivered_app, <- (Hfollow Ha r Hr). split; auto. intros [D|D]; auto.
@@ -238,18 +251,19 @@ Proof.
       + intros [[Hc Hp]|D]. * split; auto. apply in_or_app. auto.
         * destruct D as (cur & sc & par & nav & D). apply Honly in D. discriminate.
       + intros [Hc Hp]. apply in_app_or in Hc. destruct Hc as [Hc|Hc]; [left; auto | exfalso; eapply Hnc; eauto].
-    - apply sees_past_own. apply sees_past_app; auto. }
-  pose proof (tc_nil c past) as Nil.
-  destruct Nil as (N1 & N2 & N3).
+    - apply sees_past_own; [exact Hnews|]. apply sees_past_app; auto. }
+  assert (N1 : all_closes []) by apply (tc_nil c past []).
+  assert (N2 : close_spec c past []) by apply (tc_nil c past []).
+  assert (N3 : forall sk sp, sees_past c past sk sp []) by (intros sk sp; apply (tc_nil c past sk)).
   destruct (stack_pop id (st_stack st)) as [[s' fresh]|] eqn:Ep.
   - set (st1 := with_stack st s') in *.
     assert (I1 : Inv c pool st1 past).
     { eapply Inv_rest; [exact HI| |apply sub_pool_refl]. unfold same_rest. simpl. tauto. }
     destruct fresh.
     + destruct (try_close (fuel_of st1) c st1 id) as [st2 o2] eqn:Et.
-      destruct (try_close_spec c past _ Hwf _ _ _ _ _ (inv_spans _ _ _ _ I1) Et) as (Hr & Hs & Hac & Hcs & Hse).
+      destruct (try_close_spec c past _ Hwf _ _ _ _ _ (inv_spans _ _ _ _ I1) Et) as (Hr & Hs & Hac & Hcs & Hse & Hk).
       injection H as E1' E2'; subst st' out.
-      apply Tail; auto. eapply Inv_rest; eauto.
+      apply Tail; auto. eapply Inv_rest; eauto. rewrite Hk. exact Hse.
     + injection H as E1' E2'; subst st' out. apply (Tail st1 []); auto.
   - injection H as E1' E2'; subst st' out. apply (Tail st []); auto.
 Qed.
@@ -260,11 +274,10 @@ Proof.
   destruct (handle st h) as [id|] eqn:Eh.
   2:{ inversion H; subst. rewrite app_nil_r. split; auto. split; auto. apply sees_quiet, quiet_nil. }
   destruct (try_close (fuel_of st) c st id) as [st1 o1] eqn:Et.
-  destruct (try_close_spec c past _ Hwf _ _ _ _ _ (inv_spans _ _ _ _ HI) Et) as (Hr & Hs & Hac & Hcs & Hse).
+  destruct (try_close_spec c past _ Hwf _ _ _ _ _ (inv_spans _ _ _ _ HI) Et) as (Hr & Hs & Hac & Hcs & Hse & Hk).
   injection H as E1' E2'; subst st' out.
-  rewrite (all_closes_news _ Hac), app_nil_r.
-  split; [split|split]; auto.
+  split; [split|split]; [| |rewrite (all_closes_news _ Hac), app_nil_r|]; auto.
   - intros n w cur sc par nav Hin. right. eapply Hac; eauto.
   - eapply Inv_rest; [exact HI| |exact Hs]. unfold same_rest in *. simpl. tauto.
-  - apply sees_past_own. auto.
+  - apply sees_past_own; [apply all_closes_news; auto|]. simpl. rewrite Hk. apply Hse.
 Qed.
